@@ -17,6 +17,7 @@ func init() {
 		Run: runC03,
 		Explanation: "Access lists. Decided: (D1) the server installs itself as the proxy's pre-request hook, and in the pinned dnsproxy the request handler (and the default resolver) run only after that hook returned nil, a reply being sent only for a BeforeRequestError; (D2) admission: the hook returns nil only when the client is not blocked and (for single-question requests) the name is not on the blocked-hosts list, and nothing reachable from the hook touches the query log, the statistics or an upstream; " +
 			"(D3) silent drop vs REFUSED: for UDP and DNSCrypt the hook returns a plain error (no reply), for every other transport a BeforeRequestError whose response is built by makeResponseREFUSED; (D4) allow-list vs block-list mode: allow-list mode is decided from all three allowed collections; the allowed collections are consulted only in allow-list mode and the disallowed ones only otherwise; a client is reported blocked only when (allow-list mode and both address and ClientID are excluded) or (block-list mode and at least one is excluded); the decision reads one snapshot of the access manager under the server lock. " +
+			"(D5) no configured entry is dropped: in the list builder every iteration that does not return an error records the entry — the parsed address in the address set, the parsed prefix appended to the network list, or the string in the ClientID set — and both lists of the access manager are built by it from the configured slices; the address check tests every stored network (the scan leaves the loop early only by returning a match). " +
 			"Not decided: CIDR containment and zone handling, ClientID case, blocked-host pattern semantics (value-level).",
 		RuleText:    "CFG edge guards on SSA, phi-leaf classification of the decision inputs, call-graph reachability restricted to static module callees.",
 		Assumptions: []string{"dnsproxy v0.75.3 shape asserted on its loaded source (handleBefore before RequestHandler)"},
@@ -172,6 +173,7 @@ func runC03(c *Ctx) {
 
 	c03PreBlocked(c)
 	c03Modes(c)
+	c03Entries(c)
 }
 
 func c03PreBlocked(c *Ctx) {
@@ -546,4 +548,169 @@ func c03Modes(c *Ctx) {
 	r.Check(len(recvs) == 3 && (same || underLock), "C03-D4", "IsBlockedClient:one-snapshot", p.FnPos(ib),
 		"the three parts of the decision read the access manager under one hold of the server lock (or from one snapshot)",
 		"the parts of the access decision read the access manager at different times without holding the server lock across them: a concurrent switch between block-list and allow-list mode can combine a stale address verdict with the new mode and admit an excluded client")
+}
+
+// c03Entries: D5.
+func c03Entries(c *Ctx) {
+	p, r := c.P, c.R
+	fn := p.Fn("dnsforward.processAccessClients")
+	if fn == nil {
+		r.Undecided("C03-D5", "processAccessClients", "-", "anchor not found")
+		return
+	}
+	hdrs := loopHeaders(fn)
+	if len(hdrs) != 1 || len(fn.Params) != 4 {
+		r.Undecided("C03-D5", "processAccessClients", p.FnPos(fn), "expected one loop over the configured strings and the (strings, ips, nets, clientIDs) parameters")
+		return
+	}
+	hdr := hdrs[0]
+	ips, nets, ids := fn.Params[1], fn.Params[2], fn.Params[3]
+	kinds := map[string]int{}
+	record := func(in ssa.Instruction) bool {
+		switch x := in.(type) {
+		case *ssa.Call:
+			k := core.CalleeKey(x.Common())
+			if strings.Contains(k, "container.MapSet") && strings.HasSuffix(k, ".Add") && len(x.Call.Args) == 2 {
+				switch x.Call.Args[0] {
+				case ssa.Value(ips):
+					if core.IsCallResult(x.Call.Args[1], 0, "net/netip.ParseAddr", "netip.ParseAddr") {
+						kinds["address"]++
+						return true
+					}
+				case ssa.Value(ids):
+					kinds["clientid"]++
+					return true
+				}
+			}
+		case *ssa.Store:
+			if x.Addr != ssa.Value(nets) {
+				return false
+			}
+			ap, ok := x.Val.(*ssa.Call)
+			if !ok {
+				return false
+			}
+			if bi, ok := ap.Call.Value.(*ssa.Builtin); !ok || bi.Name() != "append" || len(ap.Call.Args) != 2 {
+				return false
+			}
+			if ld, ok := ap.Call.Args[0].(*ssa.UnOp); !ok || ld.X != ssa.Value(nets) {
+				return false
+			}
+			// the appended element is the parsed prefix
+			if sl, ok := ap.Call.Args[1].(*ssa.Slice); ok {
+				if al, ok := sl.X.(*ssa.Alloc); ok {
+					for _, u := range core.Users(al) {
+						if ia, ok := u.(*ssa.IndexAddr); ok {
+							for _, u2 := range core.Users(ia) {
+								if st, ok := u2.(*ssa.Store); ok && core.IsCallResult(st.Val, 0, "net/netip.ParsePrefix", "netip.ParsePrefix") {
+									kinds["network"]++
+									return true
+								}
+							}
+						}
+					}
+				}
+			}
+		}
+		return false
+	}
+	// from the start of the loop body, the next iteration or the nil return is reached only through a record
+	var body *ssa.BasicBlock
+	for _, s := range hdr.Succs {
+		if hdr.Dominates(s) && s != hdr {
+			if found, _, _ := core.Reach(core.Query{From: []core.Point{{Block: s, Idx: 0}}, Target: func(in ssa.Instruction) bool { return in.Block() == hdr }}); found {
+				body = s
+			}
+		}
+	}
+	if body == nil {
+		r.Undecided("C03-D5", "processAccessClients", p.FnPos(fn), "loop body not identified")
+		return
+	}
+	found, trace, _ := core.Reach(core.Query{
+		From: []core.Point{{Block: body, Idx: 0}},
+		Target: func(in ssa.Instruction) bool {
+			if in.Block() == hdr {
+				return true
+			}
+			if ret, ok := in.(*ssa.Return); ok && len(ret.Results) == 1 && core.IsNilConst(ret.Results[0]) {
+				return true
+			}
+			return false
+		},
+		Avoid: record,
+	})
+	var det []string
+	if found {
+		det = append(det, "path without a record: "+p.TraceString(trace))
+	}
+	r.Check(!found && kinds["address"] > 0 && kinds["network"] > 0 && kinds["clientid"] > 0, "C03-D5", "every-entry-recorded", p.FnPos(fn),
+		"every configured client entry that is accepted is stored: address in the address set, prefix appended to the network list, otherwise the ClientID",
+		"a configured client entry can be accepted without being stored (it then neither excludes nor admits anybody)", det...)
+
+	// both lists are built by it from the configured slices into the manager's own collections
+	na := p.Fn("dnsforward.newAccessCtx")
+	if na == nil {
+		r.Undecided("C03-D5", "newAccessCtx", "-", "anchor not found")
+		return
+	}
+	got := map[string]bool{}
+	for _, call := range core.CallsTo(na, "dnsforward.processAccessClients") {
+		if len(call.Common.Args) != 4 || len(na.Params) < 2 {
+			continue
+		}
+		var which string
+		switch call.Arg(0) {
+		case ssa.Value(na.Params[0]):
+			which = "allowed"
+		case ssa.Value(na.Params[1]):
+			which = "blocked"
+		default:
+			continue
+		}
+		f1, _, ok1 := core.LoadedField(call.Arg(1))
+		f2, ok2 := core.FieldOfAddr(call.Arg(2))
+		f3, _, ok3 := core.LoadedField(call.Arg(3))
+		if ok1 && ok2 && ok3 && f1.Field == which+"IPs" && f2.Field == which+"Nets" && f3.Field == which+"ClientIDs" {
+			got[which] = true
+		}
+	}
+	r.Check(got["allowed"] && got["blocked"], "C03-D5", "lists-built-from-configuration", p.FnPos(na),
+		"the allowed and the disallowed collections are filled from the respective configured lists", "the allowed/disallowed collections are not filled from the respective configured lists")
+
+	// the address check tests every stored network
+	ib := p.Fn("(*dnsforward.accessManager).isBlockedIP")
+	if ib == nil {
+		r.Undecided("C03-D5", "isBlockedIP", "-", "anchor not found")
+		return
+	}
+	okScan := false
+	var why string
+	for _, h := range loopHeaders(ib) {
+		if !strings.HasPrefix(h.Comment, "rangeindex") {
+			why = "the scan of the networks is not a plain range loop"
+			continue
+		}
+		okScan = true
+		// every exit from the loop other than the header's own is a return
+		for _, b := range ib.Blocks {
+			if !h.Dominates(b) || b == h {
+				continue
+			}
+			inLoop, _, _ := core.Reach(core.Query{From: []core.Point{{Block: b, Idx: 0}}, Target: func(in ssa.Instruction) bool { return in.Block() == h }})
+			if !inLoop {
+				continue
+			}
+			for _, s := range b.Succs {
+				back, _, _ := core.Reach(core.Query{From: []core.Point{{Block: s, Idx: 0}}, Target: func(in ssa.Instruction) bool { return in.Block() == h }})
+				if s == h || back {
+					continue
+				}
+				if _, isRet := s.Instrs[len(s.Instrs)-1].(*ssa.Return); !isRet {
+					okScan, why = false, "the scan of the networks can stop before all networks were tested without returning a match ("+p.InstrPos(s.Instrs[0])+")"
+				}
+			}
+		}
+	}
+	r.Check(okScan, "C03-D5", "all-networks-tested", p.FnPos(ib), "the address is tested against every stored network unless a match is returned", "not every stored network is tested: "+why)
 }
